@@ -174,7 +174,13 @@ func (limitsEngine) Gen(r *Rand, tier string) any {
 		c.Mode = "tail"
 		c.Depth = r.Range(1, 20)
 		c.Caught = r.Bool()
-		c.Forms = structProgram(r, "tail", c.Depth, c.Caught)
+		kind := "tail"
+		if r.Chance(1, 2) {
+			// on some turns the tail call's arguments take the stack deeper
+			// than it has ever been in this runtime (the frame storage grows)
+			kind = "tail-deep"
+		}
+		c.Forms = structProgram(r, kind, c.Depth, c.Caught)
 		c.MaxLim = c.Depth + 4
 	case 4:
 		c.Mode = "macro"
@@ -247,6 +253,21 @@ func structProgram(r *Rand, kind string, depth int, caught bool) []*Node {
 		defs = append(defs, L(A("defun"), A("tt"), L(A("n"), A("acc")),
 			Call("if", Call("<=", A("n"), I(0)), Call("sim:probe", QS("deep"), A("acc")),
 				Call("tt", Call("-", A("n"), I(1)), Call("+", A("acc"), I(1))))))
+		call = Call("tt", I(depth), I(0))
+	case "tail-deep":
+		// the same loop, but on up to three turns an argument of the tail call
+		// is a non-tail recursion K frames deep (K straddling powers of two)
+		defs = append(defs, L(A("defun"), A("dd"), L(A("k")),
+			Call("if", Call("<=", A("k"), I(0)), I(0), Call("+", I(0), Call("dd", Call("-", A("k"), I(1)))))))
+		extra := I(0)
+		for i := r.Range(1, 3); i > 0; i-- {
+			m := r.Range(1, depth)
+			k := []int{1, 2, 3, 4, 5, 7, 9, 15, 17, 31, 33, 63, 65, 90}[r.Intn(14)]
+			extra = Call("if", Call("=", A("n"), I(m)), Call("dd", I(k)), extra)
+		}
+		defs = append(defs, L(A("defun"), A("tt"), L(A("n"), A("acc")),
+			Call("if", Call("<=", A("n"), I(0)), Call("sim:probe", QS("deep"), A("acc")),
+				Call("tt", Call("-", A("n"), I(1)), Call("+", A("acc"), I(1), extra)))))
 		call = Call("tt", I(depth), I(0))
 	case "macro":
 		defs = append(defs, L(A("defmacro"), A("ww"), L(A("n"), A("x")),
